@@ -1,7 +1,6 @@
 package main
 
 import (
-	"bytes"
 	"encoding/json"
 	"flag"
 	"reflect"
@@ -119,7 +118,8 @@ type vworld struct {
 }
 
 type vworldOpts struct {
-	Split int64 `json:"split"` // != 0: build the root by two Merge calls over a split of the settings
+	Split  int64 `json:"split"`  // != 0: build the root by two Merge calls over a split of the settings
+	Repeat int   `json:"repeat"` // > 0: create + unpack the whole config this many more times (C09)
 }
 
 func (w *vworld) build(wo vworldOpts) (*ucfg.Config, []ucfg.Option, error) {
@@ -212,8 +212,10 @@ type varObs struct {
 	Build  string                 `json:"build,omitempty"`
 	Reads  []readObs              `json:"reads"`
 	Unpack map[string]interface{} `json:"unpack"`
-	Flat   string                 `json:"flat"`
-	Extra  string                 `json:"extra,omitempty"`
+	// the distinct outcomes of the repeated create + Unpack (C09: there must be exactly one)
+	UnpackAll []map[string]interface{} `json:"unpack_all,omitempty"`
+	Flat      string                   `json:"flat"`
+	Extra     string                   `json:"extra,omitempty"`
 }
 
 var varReadNames = []string{"a", "b", "c", "n.k", "n", "m"}
@@ -256,11 +258,34 @@ func observeWorld(w *vworld, withFlat bool, wo vworldOpts) (o varObs) {
 		c.Child(n, -1, opts...)
 		o.Reads = append(o.Reads, r)
 	}
-	var m map[string]interface{}
-	if err := c.Unpack(&m, opts...); err != nil {
-		o.Unpack = map[string]interface{}{"err": varErrClass(err)}
-	} else {
-		o.Unpack = map[string]interface{}{"ok": canonGo(m)}
+	unpackWhole := func(c *ucfg.Config, opts []ucfg.Option) map[string]interface{} {
+		var m map[string]interface{}
+		if err := c.Unpack(&m, opts...); err != nil {
+			return map[string]interface{}{"err": varErrClass(err)}
+		}
+		return map[string]interface{}{"ok": canonGo(m)}
+	}
+	o.Unpack = unpackWhole(c, opts)
+	if wo.Repeat > 0 {
+		// the runtime enumerates the dictionaries in a fresh random order on every traversal
+		seen := map[string]bool{}
+		add := func(r map[string]interface{}) {
+			b, _ := json.Marshal(r)
+			if !seen[string(b)] {
+				seen[string(b)] = true
+				o.UnpackAll = append(o.UnpackAll, r)
+			}
+		}
+		add(o.Unpack)
+		for i := 0; i < wo.Repeat; i++ {
+			c2, opts2, err := w.build(wo)
+			if err != nil {
+				add(map[string]interface{}{"err": "build: " + err.Error()})
+				continue
+			}
+			add(unpackWhole(c2, opts2))
+			add(unpackWhole(c, opts))
+		}
 	}
 	if withFlat {
 		c.FlattenedKeys(opts...)
@@ -418,6 +443,7 @@ func varReplay(args []string) int {
 	seed := fs.Int64("seed", 1, "seed")
 	splitMerge := fs.Bool("split-merge", false, "build every world by two Merge calls (late binding)")
 	every := fs.Int("every", 1, "use every n-th world only")
+	repeat := fs.Int("repeat", 0, "create + unpack the whole config this many more times and demand one outcome (C09)")
 	fs.Parse(args)
 	rep := newReporter("varexp")
 	pool := newIsoPool("varexp", 24, 20*time.Second)
@@ -445,11 +471,11 @@ func varReplay(args []string) int {
 			}
 			split = ((h ^ *seed) & 0x1ff) | 0x200
 		}
-		req, _ := json.Marshal(map[string]interface{}{"w": c.W, "flat": oneShot, "split": split})
+		req, _ := json.Marshal(map[string]interface{}{"w": c.W, "flat": oneShot, "split": split, "repeat": *repeat})
 		resp, status := pool.do(req)
 		flatStatus := status
 		if status != "ok" && oneShot {
-			req, _ = json.Marshal(map[string]interface{}{"w": c.W, "flat": false, "split": split})
+			req, _ = json.Marshal(map[string]interface{}{"w": c.W, "flat": false, "split": split, "repeat": *repeat})
 			resp, status = pool.do(req)
 		}
 		if status != "ok" {
@@ -466,7 +492,6 @@ func varReplay(args []string) int {
 			rep.skip()
 			rep.class("ambiguous-alt-on-active-name")
 		}
-		hasResolver := bytes.Contains(c.W, []byte(`"res":[{`)) || bytes.Contains(c.W, []byte(`"res":[[`))
 		ok := true
 		for i, r := range c.Reads {
 			if c.Amb {
@@ -501,14 +526,9 @@ func varReplay(args []string) int {
 				ge, isErr := g.SF["err"].(string)
 				return isErr && (ge == e.Err || e.Err == "type" || e.Err == "object")
 			}
-			// (inside a reference cycle that a RESOLVER absorbs, the inner evaluation leaves the resolver's
-			// answer in the per-call cache and the second evaluation of the same call is served from it -
-			// the shared-cache limit of DESIGN.md 0.7; cycles absorbed by a default operator are compared)
-			if !(c.Cyc && hasResolver) {
-				ok = rep.classify(raw, r.Str.Ideal, r.Str.Alts, sfEq, func() interface{} {
-					return map[string]interface{}{"Unpack string field": r.Name, "got": g.SF}
-				}, "string-field") && ok
-			}
+			ok = rep.classify(raw, r.Str.Ideal, r.Str.Alts, sfEq, func() interface{} {
+				return map[string]interface{}{"Unpack string field": r.Name, "got": g.SF}
+			}, "string-field") && ok
 			ok = rep.classify(raw, r.Typed.Ideal, r.Typed.Alts, eqTyped(g.Typed), func() interface{} {
 				return map[string]interface{}{"Unpack field": r.Name, "got": g.Typed}
 			}, "typed") && ok
@@ -516,16 +536,23 @@ func varReplay(args []string) int {
 				return map[string]interface{}{"Has": r.Name, "got": g.Has}
 			}, "has") && ok
 		}
-		// Unpack of the whole config shares one per-call cache between the fields: inside a reference
-		// cycle a field may be served a value cached while another field was evaluated, so the
-		// outcome depends on field order (recorded in DESIGN.md; decided per setting above instead)
+		// Unpack of the whole config: the per-call cache is shared between the fields, and the fields are
+		// visited in the runtime's map order - the result must nevertheless be the per-setting one (C09)
 		if c.Cyc {
-			rep.class("whole-unpack-not-compared(cyclic world)")
+			rep.class("whole-unpack(cyclic world)")
 		}
-		if !c.Amb && !c.Cyc {
+		if !c.Amb {
 			rep.classify(raw, c.Unpack.Ideal, c.Unpack.Alts, eqTyped(o.Unpack), func() interface{} {
 				return map[string]interface{}{"Unpack": "whole config", "got": o.Unpack}
 			}, "unpack")
+		}
+		// C09: create + Unpack is a function of its arguments (also in ambiguous worlds: whatever
+		// ${x:+y} on an active name means, it means the same every time)
+		if len(o.UnpackAll) > 1 {
+			rep.violate("unpack-order", raw, o.UnpackAll, "one outcome for every repetition of create + Unpack",
+				"the outcome of Unpack depends on the order in which the runtime enumerates the settings")
+		} else if *repeat > 0 {
+			rep.class("unpack-repeated-one-outcome")
 		}
 		// FlattenedKeys + CompareConfigs
 		if !oneShot {
